@@ -74,6 +74,13 @@ Section Ids.
       step_nw s (mkSt (last s + 1) (synced s) (cap s) (pub s) (last s + 1 :: apps s) (at_ s))
   | nw_other s s' : step s s' -> apps s' = apps s -> step_nw s s'.
 
+  (* ... plus FORCED periodic snapshots (storage_force_snapshot_interval): at the upload check the loop may go on
+     to SendOnce although it saw no local change (snapshotOverdue) *)
+  Inductive step_nw_f : st -> st -> Prop :=
+  | nwf_nw s s' : step_nw s s' -> step_nw_f s s'
+  | nwf_forced s : at_ s = Top ->
+      step_nw_f s (mkSt (last s) (synced s) (cap s) (pub s) (apps s) SendBegin).
+
   Inductive reach (R : st -> st -> Prop) (s0 : st) : st -> Prop :=
   | r_init : reach R s0 s0
   | r_step s s' : reach R s0 s -> R s s' -> reach R s0 s'.
